@@ -241,7 +241,10 @@ class BackupManager:
 
         base = os.path.basename(file_path)
         for task in task_names:
-            if ('task_' + task) in base:
+            # The whole task name: 'task_go' is not part of 'task_gonogo'.
+            position = base.find('task_' + task)
+            end = position + len('task_' + task)
+            if position != -1 and (end == len(base) or base[end] in '_.'):
                 return task
         else:
             return ''
